@@ -243,7 +243,12 @@ func body(s *simrt.Sim, tier string) {
 	racing := term >= 2
 	closer := func() {
 		s.Logf("close")
+		before := s.Stamp()
 		rl.Close()
+		// helper goroutines of Adds that had been issued before this Close was called have finished as well
+		if l := s.LiveBornBefore("coalescing.Add", before); len(l) > 0 {
+			s.Fail("goroutines-alive-after-close", fmt.Sprintf("Close returned while helper goroutines of Adds issued before it were still alive: %v", l))
+		}
 		// at this very instant (no scheduling point since Close returned) no signal sender may be alive;
 		// token goroutines of Adds issued after Close began are not Close's business
 		if l := s.Live("fireEvent"); len(l) > 0 {
